@@ -132,6 +132,15 @@ func TestC02(t *testing.T) {
 			units = append(units, a+b)
 		}
 	}
+	// construct openers that can nest (an attribute value or a body that holds the next opener), alone and in pairs:
+	// a classifier that re-enters itself for a nested value needs one frame per level
+	nest := []string{"<a b=", "<a/b=", "<a b='", "<a b=\"", "<a b=`", "<!--", "<![CDATA[", "<a href=", "<a style=", "<a ", "</a ", "<%", "<?", "<!", "=<", "'<", "x=<a ", "<a b=c ", "<a\tb=", "<a b =", "<a b= "}
+	for _, a := range nest {
+		units = append(units, a)
+		for _, b := range nest {
+			units = append(units, a+b)
+		}
+	}
 	seenUnit := map[string]bool{}
 	for _, u := range pairs {
 		seenUnit[u] = true
@@ -175,6 +184,8 @@ func TestC02(t *testing.T) {
 	p = c.rec.NewPart("boundary_inputs", "length-, count- and code-point boundary inputs (see C07); case-folding code points are NOT excluded here", false, true, "")
 	c.ParRange(p, int64(len(hb)), func(w *Worker, i int64) { judge(w, hb[i]) })
 	// comment bodies over case-folding code points and marker letters, exhaustive
+	p = c.rec.NewPart("source_bytes", fmt.Sprintf("bytes the XSS source files write as literals and the byte-class alphabet lacks, inserted at every position of every string of 0..%d core symbols, and behind every hostile construct opener at the end of the input", 4), false, true, "")
+	c.srcByteInputs(p, extraBytes(srcDict().HTMLBytes, gen.AlphaHTML), gen.CoreHTML, 4, htmlHostile, judge)
 	p = c.rec.NewPart("source_dictionary", "construct openers x sequences of 1..5 symbols around each word that occurs as a literal in the XSS source files (see C07)", false, true, "")
 	c.htmlDictInputs(p, judge)
 	p = c.rec.NewPart("unicode_fold_comments", "5 comment openers x every body of length 0..5 over {U+0131, U+017F, U+1FBE, a, [, i}", false, true, "")
